@@ -470,3 +470,55 @@ func (e *Env) Open(transport string, r Req) (*Stream, error) {
 	}
 	return &Stream{Resp: resp, T0: t0, conn: c}, nil
 }
+
+// Pending is a request that has been sent but whose response has not been read yet.
+type Pending struct {
+	T0     time.Time
+	method string
+	conn   net.Conn
+	br     *bufio.Reader
+	extra  io.Closer
+}
+
+// Start sends r (fresh connection or fresh tunnel) and returns without reading the response.
+func (e *Env) Start(transport string, r Req) (*Pending, error) {
+	if transport == "tunnel" {
+		t, err := e.Connect(r.Host)
+		if err != nil {
+			return nil, err
+		}
+		t.raw.SetDeadline(time.Now().Add(Timeout))
+		t0 := time.Now()
+		if _, err := t.tls.Write(r.bytes(false)); err != nil {
+			t.Close()
+			return nil, err
+		}
+		return &Pending{T0: t0, method: r.Method, conn: t.raw, br: t.br, extra: t.tls}, nil
+	}
+	c, err := net.DialTimeout("tcp", e.Addr(), 5*time.Second)
+	if err != nil {
+		return nil, err
+	}
+	c.SetDeadline(time.Now().Add(Timeout))
+	t0 := time.Now()
+	if _, err := c.Write(r.bytes(true)); err != nil {
+		c.Close()
+		return nil, err
+	}
+	return &Pending{T0: t0, method: r.Method, conn: c, br: bufio.NewReader(c)}, nil
+}
+
+// Abort hangs up.
+func (p *Pending) Abort() {
+	p.conn.Close()
+}
+
+// Header reads the response header; the body is then read from Stream.Resp.Body.
+func (p *Pending) Header() (*Stream, error) {
+	resp, err := http.ReadResponse(p.br, &http.Request{Method: p.method})
+	if err != nil {
+		p.conn.Close()
+		return nil, fmt.Errorf("%w: %v", ErrNoResponse, err)
+	}
+	return &Stream{Resp: resp, T0: p.T0, conn: p.conn, extra: p.extra}, nil
+}
